@@ -178,6 +178,25 @@ class CodeGenerator(abc.ABC):
         # to local variables in the generated functions as well
         return {atom.name for atom in atoms_} | set(self.ode.missing_variables)
 
+    def _check_renamed_names(self) -> None:
+        """The printer appends a suffix to the names that are reserved words of the
+        target language (e.g. lambda -> lambda_). Check that this is not the name
+        of another variable"""
+        from ..exceptions import ReservedSymbolError
+
+        suffix = self.printer._settings.get("reserved_word_suffix", "_")
+        names = self._variable_names()
+        if clashes := {
+            name
+            for name in names
+            if name in self.printer.reserved_words and f"{name}{suffix}" in names
+        }:
+            raise ReservedSymbolError(
+                clashes,
+                reason=f"they are written as <name>{suffix} in the generated code, "
+                "which are the names of other variables",
+            )
+
     def _check_reserved_names(self) -> None:
         from ..exceptions import ReservedSymbolError
 
